@@ -694,6 +694,83 @@ pub struct Mutant {
     pub detail: String,
 }
 
+/// Re-class mutants that merely *start with* a complete genuine packet (an insert that
+/// duplicates the last byte, a splice whose head happens to be a whole packet, ...): to a
+/// receiver that decodes one packet and hands back the rest these are the genuine packet
+/// followed by garbage, i.e. extensions, not forgeries.
+fn mark_genuine_prefixes(mutants: &mut [Mutant], genuine: &[&[u8]]) {
+    for m in mutants.iter_mut() {
+        if m.class == "extend" {
+            continue;
+        }
+        if genuine.iter().any(|g| m.bytes.len() > g.len() && m.bytes[..g.len()] == **g) {
+            m.class = "extend";
+            m.region = "length";
+        }
+    }
+}
+
+/// the specimen's fields as the generic decoder reports them
+fn expected_fields(s: &Specimen) -> Fields {
+    let mut expect = s.fields.clone();
+    if expect.kind.starts_with("stream") {
+        expect.kind = "stream";
+    }
+    expect
+}
+
+/// which decoded field of an accepted mutant differs from the genuine packet it was made from
+/// (for splices: from whichever of the genuine packets involved it is closest to)
+fn accepted_field(s: &Specimen, siblings: &[Specimen], m: &Mutant, ctx: &KeyCtx) -> &'static str {
+    let first = accepted_field_one(s, m, ctx);
+    if m.class != "splice" {
+        return first;
+    }
+    let mut best = first;
+    let rank = |f: &str| match f {
+        "recovery_bit" => 0,
+        "source_queue_id" => 1,
+        "no_field(non_canonical_encoding)" => 2,
+        _ => 3,
+    };
+    for sib in siblings {
+        if sib.kind == s.kind {
+            let f = accepted_field_one(sib, m, ctx);
+            if rank(f) < rank(best) {
+                best = f;
+            }
+        }
+    }
+    best
+}
+
+fn accepted_field_one(s: &Specimen, m: &Mutant, ctx: &KeyCtx) -> &'static str {
+    match open_caught(&m.bytes, ctx, false) {
+        Ok(Opened::Ok { fields, .. }) => {
+            let mut got = *fields;
+            let mut expect = expected_fields(s);
+            if s.kind == Kind::StreamRetransmit {
+                // the recovery bit is reported through the region name (tag_byte)
+                if (got.tag_byte ^ expect.tag_byte) & !packet::stream::Tag::IS_RECOVERY_PACKET == 0 {
+                    got.tag_byte = expect.tag_byte;
+                    if got == expect {
+                        return "recovery_bit";
+                    }
+                }
+                expect.tag_byte = got.tag_byte;
+            }
+            match diff_field(&got, &expect) {
+                "consumed_len" => "no_field(non_canonical_encoding)",
+                // a changed first byte that only toggles the presence of the queue id shows up
+                // as a queue id difference as well: name the field
+                "tag_byte" if got.source_queue_id != expect.source_queue_id => "source_queue_id",
+                f => f,
+            }
+        }
+        _ => m.region,
+    }
+}
+
 /// positions to sweep for a packet: every position if it is small, otherwise every header
 /// and tag byte plus a sample of payload bytes
 fn sweep_positions(rng: &mut Rng, s: &Specimen, full_limit: usize) -> Vec<usize> {
@@ -835,6 +912,8 @@ struct Stats<'a> {
     sum: &'a mut Summary,
     positions: BTreeMap<Kind, BTreeSet<usize>>,
     per_sig: BTreeMap<String, u64>,
+    /// the other genuine packets the current mutants were spliced from
+    siblings: Vec<Specimen>,
 }
 
 impl Stats<'_> {
@@ -943,11 +1022,12 @@ fn judge_mutant(st: &mut Stats, s: &Specimen, m: &Mutant, ctx: &KeyCtx, seed: u6
                 return;
             }
             let _ = fields;
+            let field = accepted_field(s, &st.siblings, m, ctx);
             st.violation(Violation {
                 property: "C18".into(),
-                signature: format!("c18:tamper_accepted:{}:{}", s.kind.name(), m.region),
+                signature: format!("c18:tamper_accepted:{}:{}", s.kind.name(), field),
                 what: format!(
-                    "a {} packet modified by `{}` ({}; region {}) still authenticates/decrypts under the path secret it names",
+                    "a {} packet modified by `{}` ({}; region {}) still authenticates/decrypts under the path secret it names; decoded field that differs from the genuine packet: {field}",
                     s.kind.name(), m.class, m.detail, m.region
                 ),
                 replay: replay(),
@@ -1057,14 +1137,19 @@ fn codec_case(st: &mut Stats, seed: u64, case: u64, full_limit: usize) {
         length_mutants(&mut rng, &s, &mut mutants);
         extension_mutants(&mut rng, &s, &mut mutants);
         // a sibling packet of the same kind under the same secret for splicing
+        let mut sibling_bytes: Vec<Vec<u8>> = Vec::new();
         if let Ok(sib) = catch_unwind(AssertUnwindSafe(|| make_specimen(&mut rng.fork(), *kind, &ctx, cap.min(700)))) {
+            sibling_bytes.push(sib.bytes.clone());
             splice_mutants(&mut rng, &s, &sib, &mut mutants);
+            st.siblings = vec![sib.clone()];
             // and one sealed under the *other* secret with the credential id rewritten to ours
             if let Ok(mut foreign) = catch_unwind(AssertUnwindSafe(|| make_specimen(&mut rng.fork(), *kind, &ctx2, 300))) {
                 foreign.bytes[1..17].copy_from_slice(&*ctx.id);
                 mutants.push(Mutant { class: "foreign_key", region: "credential_id", bytes: foreign.bytes.clone(), detail: "sealed under another secret, credential id rewritten".into() });
             }
         }
+        let genuine: Vec<&[u8]> = sibling_bytes.iter().map(|b| b.as_slice()).chain(std::iter::once(s.bytes.as_slice())).collect();
+        mark_genuine_prefixes(&mut mutants, &genuine);
         for m in &mutants {
             judge_mutant(st, &s, m, &ctx, seed, case);
         }
@@ -1284,7 +1369,9 @@ fn deliver_and_check(st: &mut Stats, v: &mut Victim, s: &Specimen, ctx: &KeyCtx,
             }
         }
         if k.is_none() {
+            // the entry is gone (evicted): report it once, then stop probing this victim
             key_jump = Some((v.last_key_id.unwrap_or(0), u64::MAX));
+            v.has_entry = false;
         }
         v.last_key_id = k.or(v.last_key_id);
     }
@@ -1299,9 +1386,10 @@ fn deliver_and_check(st: &mut Stats, v: &mut Victim, s: &Specimen, ctx: &KeyCtx,
         } else {
             "accepted_event"
         };
+        let field = accepted_field(s, &st.siblings, m, ctx);
         st.violation(Violation {
             property: "C18".into(),
-            signature: format!("c18:forged_control_acted_on:{}:{}:{}", s.kind.name(), m.region, effect),
+            signature: format!("c18:forged_control_acted_on:{}:{}:{}", s.kind.name(), field, effect),
             what: format!(
                 "a {} packet modified by `{}` ({}; region {}) was acted upon by the map in state {} via {api_name}: events {:?}, before {:?}, after {:?}, key id jump {:?}",
                 s.kind.name(), m.class, m.detail, m.region, v.state.name(), bad_events, before, after, key_jump
@@ -1428,6 +1516,8 @@ fn map_case(st: &mut Stats, seed: u64, case: u64) {
         let mut retag = s.bytes.clone();
         retag[0] = o.bytes[0];
         mutants.push(Mutant { class: "retag", region: "tag_byte", bytes: retag, detail: format!("first byte {:#04x}->{:#04x}", s.bytes[0], o.bytes[0]) });
+        mark_genuine_prefixes(&mut mutants, &[s.bytes.as_slice(), sib.bytes.as_slice(), o.bytes.as_slice()]);
+        st.siblings = vec![sib.clone(), o.clone()];
         for (i, m) in mutants.iter().enumerate() {
             // an extension is the genuine packet followed by garbage. Through the entry
             // points that decode a packet and ignore the remainder this IS the genuine
@@ -1497,7 +1587,12 @@ fn data_case(st: &mut Stats, seed: u64, case: u64) {
         let positions = sweep_positions(&mut rng, &s, 600);
         xor_mutants(&mut rng, &s, &positions, &mut mutants);
         length_mutants(&mut rng, &s, &mut mutants);
+        mark_genuine_prefixes(&mut mutants, &[s.bytes.as_slice()]);
         for m in &mutants {
+            if m.class == "extend" {
+                // the genuine packet followed by garbage: it would legitimately be accepted
+                continue;
+            }
             v.rec.take();
             let r = catch_unwind(AssertUnwindSafe(|| open_via_map(&v, &m.bytes)));
             let ev = v.rec.take();
@@ -1591,8 +1686,13 @@ fn aged_finish(st: &mut Stats, mut a: Aged, seed: u64) {
     length_mutants(&mut rng, &s, &mut mutants);
     a.victim.last_key_id = a.victim.probe_key_id(a.ctx.id);
     let mut acted = false;
+    mark_genuine_prefixes(&mut mutants, &[s.bytes.as_slice()]);
     for (i, m) in mutants.iter().enumerate() {
-        acted |= deliver_and_check(st, &mut a.victim, &s, &a.ctx, m, i as u8, true, seed, u64::MAX);
+        let api = if m.class == "extend" { 2 } else { i as u8 };
+        acted |= deliver_and_check(st, &mut a.victim, &s, &a.ctx, m, api, true, seed, u64::MAX);
+        if acted {
+            break;
+        }
     }
     st.sum.count("b2_evictable_entry_forged_ups", mutants.len() as u64);
     if acted {
@@ -1624,7 +1724,7 @@ pub fn run(args: &BTreeMap<String, String>, sum: &mut Summary) {
     let evict_control = vq_util::arg_u64(args, "evict-control", 1) == 1 && (phase == "all" || phase == "map");
     let full_limit = vq_util::arg_u64(args, "full-sweep-limit", 1200) as usize;
     let aged = if evict_control { Some(aged_setup(seed)) } else { None };
-    let mut st = Stats { sum, positions: BTreeMap::new(), per_sig: BTreeMap::new() };
+    let mut st = Stats { sum, positions: BTreeMap::new(), per_sig: BTreeMap::new(), siblings: Vec::new() };
     for case in 0..iters {
         if phase == "all" || phase == "codec" {
             codec_case(&mut st, seed, case, full_limit);
@@ -1692,10 +1792,14 @@ pub fn replay(r: &Value, sum: &mut Summary) {
             let ctx = ctx_of(sp);
             let kind = Kind::from_name(sp["kind"].as_str().unwrap_or("stream"));
             let bytes = bytes_of(&sp["bytes"]);
+            let genuine_fields = match open_caught(&bytes, &ctx, false) {
+                Ok(Opened::Ok { fields, .. }) => *fields,
+                _ => Fields::default(),
+            };
             let spec = Specimen {
                 kind,
                 bytes: bytes.clone(),
-                fields: Fields::default(),
+                fields: genuine_fields,
                 header_len: sp["header_len"].as_u64().unwrap_or(0) as usize,
                 payload_len: sp["payload_len"].as_u64().unwrap_or(0) as usize,
             };
@@ -1713,10 +1817,15 @@ pub fn replay(r: &Value, sum: &mut Summary) {
                 let evict = r["evict"].as_bool().unwrap_or(false);
                 let mut v = Victim::build(state, &ctx, &mut rng, evict);
                 v.rec.verbose = true;
+                if r["case"].as_u64() == Some(u64::MAX) {
+                    // the eviction control: the entry must be older than 10 s of real time
+                    eprintln!("[c18 replay] ageing the map entry for 10 s ...");
+                    std::thread::sleep(Duration::from_millis(10_050));
+                }
                 if v.has_entry {
                     v.last_key_id = v.probe_key_id(ctx.id);
                 }
-                let mut st = Stats { sum, positions: BTreeMap::new(), per_sig: BTreeMap::new() };
+                let mut st = Stats { sum, positions: BTreeMap::new(), per_sig: BTreeMap::new(), siblings: Vec::new() };
                 let acted = deliver_and_check(&mut st, &mut v, &spec, &ctx, &m, r["api"].as_u64().unwrap_or(0) as u8, evict, 0, 0);
                 eprintln!("[c18 replay] map state {} acted={acted}", state.name());
             } else {
@@ -1724,7 +1833,7 @@ pub fn replay(r: &Value, sum: &mut Summary) {
                 eprintln!("[c18 replay] mutant ({} B, {}) -> {o:?}", m.bytes.len(), m.detail);
                 if let Ok(Opened::Ok { .. }) = o {
                     if m.bytes != bytes {
-                        sum.violation(Violation { property: "C18".into(), signature: format!("c18:tamper_accepted:{}:{}", kind.name(), m.region), what: "mutated packet accepted".into(), replay: r.clone() });
+                        sum.violation(Violation { property: "C18".into(), signature: format!("c18:tamper_accepted:{}:{}", kind.name(), accepted_field(&spec, &[], &m, &ctx)), what: "mutated packet accepted".into(), replay: r.clone() });
                     }
                 }
                 if let Err(msg) = o {
